@@ -473,8 +473,8 @@ def _run(rep, ctx):
     rep.rule("R15.5", "spglib is given the analysed structure unmodified with the analyzer's tolerance, and its standardised lattice / positions / types are used without a change of convention (shared with C05)")
     with rep.guard("R15.5"):
         from . import shared as _shb
-        _shb.spglib_boundary(rep, ctx.model, "R15.5")
-    rep.floor("R15.5", 7)
+        _shb.spglib_boundary(rep, ctx.model, "R15.5", back=False)
+    rep.floor("R15.5", 4)
     rep.floor("R15.1", 1)
     rep.floor("R15.2", 2)
     rep.floor("R15.3", 2)
